@@ -12,7 +12,7 @@ from pyvc.state import *  # noqa
 from pyvc.state import cls_fn
 from pyvc import contract as C
 from pyvc.expr import ExprMixin
-from pyvc.calls import CallMixin
+from pyvc.calls import CallMixin, trusted
 
 
 class Obligation:
@@ -910,6 +910,20 @@ class Exec(ExprMixin, CallMixin):
                     'an exception raised by the body is not swallowed')
       else:
         F = o.val
+        # PEP 479: an exception derived from StopIteration that is *raised by the generator*
+        # (not the body's own exception passing through) never reaches the with-statement: the
+        # interpreter replaces it by a RuntimeError, which this encoding does not model.  So a
+        # generator-based manager must not raise one (this is what the former generator version
+        # of try_with_lazy_message did with a proxy of the body's StopIteration).
+        trusted('contextlib generator protocol: what the generator raises after `yield` escapes the with '
+                'block (PEP 479 conversion excluded by obligation cm/pep479)')
+        if E is not None and getattr(E, 'val', None) is not None and getattr(F, 'val', None) is not None:
+          same = F.val == E.val
+        else:
+          same = z3.BoolVal(False)
+        self.oblige('cm/pep479', 'raises', st,
+                    z3.Or(same, z3.Not(cls_in(F.cls_term, 'StopIteration'))),
+                    'the generator raises no StopIteration-derived exception of its own after yield')
         if ctr.exc_rel is not None:
           self.oblige('cm/exc-rel', 'raises', st, ctr.exc_rel(ctx, E, F),
                       'the escaping exception is the body\'s exception (or its decorated form)')
